@@ -7,7 +7,8 @@ def gen_history(rng, profile=None, max_ops=40):
     """profile: dict of weights/biases. Returns a JSON-able case {'root':..., 'ops':[...], 'profile':...}."""
     p = {'pressure': 0.6, 'identity': 0.3, 'affinity': 0.4, 'failure': 0.4, 'partitions': 0.3,
          'lease': 0.2, 'traits': 0.3, 'alloc': 0.5, 'raw_remove': 0.1, 'renew': 0.1, 'once': 0.1,
-         'blacklist': 0.15, 'maxutil': 0.15, 'prio0': 0.15, 'deep': 0.0}
+         'blacklist': 0.15, 'maxutil': 0.15, 'prio0': 0.15, 'deep': 0.0, 'move': 0.03, 'few_shapes': 0.0,
+         'scenarios': 0.0, 'many_allocs': 0, 'sparse_demand': 0.0}
     if profile:
         p.update(profile)
     ops = []
@@ -55,7 +56,7 @@ def gen_history(rng, profile=None, max_ops=40):
     # ---- allocations ----------------------------------------------------
     for label in st['labels']:
         st['allocs'].append((label, []))
-        for _ in range(rng.randint(0, 2)):
+        for _ in range(rng.randint(0, 2) + p['many_allocs']):
             path = [6000 + rng.randint(0, 2)]
             if rng.random() < 0.5:
                 path.append(6010 + rng.randint(0, 2))
@@ -98,6 +99,12 @@ def gen_history(rng, profile=None, max_ops=40):
         scale = base * (2 if big else 1)
         demand = [max(1, rng.randint(scale // 4, scale)), max(1, rng.randint(scale // 4, scale)),
                   max(1, rng.randint(scale // 4, scale))]
+        if rng.random() < p['few_shapes']:
+            d0 = rng.choice([base // 2, base, base * 2])
+            demand = [d0, d0, d0]
+        if rng.random() < p['sparse_demand']:
+            keep = rng.randrange(3)
+            demand = [d if i == keep else 0 for i, d in enumerate(demand)]   # demand in one dimension only: exact ties
         if rng.random() < 0.1:
             demand[rng.randrange(3)] = base * 5      # fits nowhere in one dimension
         prio = 0 if rng.random() < p['prio0'] else rng.randint(1, 10)
@@ -121,6 +128,27 @@ def gen_history(rng, profile=None, max_ops=40):
         r = rng.random()
         srv = list(st['servers'])
         apps = list(st['apps'])
+        if groups and srv and rng.random() < p['scenarios'] * 0.2:
+            # between two cycles: group shrunk, a server removed the way the loader does it, group grown again
+            g = rng.choice(groups)
+            n = rng.choice(srv)
+            st['servers'].pop(n)
+            ops.append(['Schedule'])
+            ops.append(['ConfigGroup', g, rng.choice([0, 1])])
+            ops.append(['RemoveServer', n, False])
+            ops.append(['ConfigGroup', g, rng.randint(2, 5)])
+            ops.append(['Schedule'])
+            continue
+        if groups and srv and apps and rng.random() < p['scenarios'] * 0.2:
+            # an identity holder loses its server between cycles and a same-shaped instance is queued ahead of it
+            n = rng.choice(srv)
+            st['servers'].pop(n)
+            ops.append(['Schedule'])
+            ops.append(['RemoveServer', n, False])
+            new_app()
+            ops[-1][3]['prio'] = 50
+            ops.append(['Schedule'])
+            continue
         if r < 0.22:
             ops.append(['Schedule'])
         elif r < 0.36:
@@ -144,7 +172,11 @@ def gen_history(rng, profile=None, max_ops=40):
             st['removed_servers'].append(info)
             ops.append(['RemoveServer', n, rng.random() < p['raw_remove']])
         elif r < 0.74:
-            new_server()
+            if srv and rng.random() < p['move'] * 10:
+                # topology change: a server (with whatever runs on it) is moved to another rack
+                ops.append(['MoveServer', rng.choice(srv), rng.choice(st['racks'])])
+            else:
+                new_server()
         elif r < 0.78 and apps:
             ops.append(['SetPrio', rng.choice(apps), rng.choice([0, 1, 5, 10, 50])])
         elif r < 0.81 and apps and rng.random() < p['blacklist'] * 4:
